@@ -184,7 +184,6 @@ def _compute_constraints_of_field_reference(expression, ir, computed=None):
         else:
             type_size = None
         assert referrent_type.has_field("atomic_type"), field
-        assert not referrent_type.atomic_type.reference.canonical_name.module_file
         _set_integer_constraints_from_physical_type(
             expression, referrent_type, type_size
         )
@@ -208,6 +207,18 @@ def _set_integer_constraints_from_physical_type(expression, physical_type, type_
     #
     # TODO(bolms): Add a scheme for defining integer bounds on user-defined
     # external types.
+    canonical_name = physical_type.atomic_type.reference.canonical_name
+    if canonical_name.module_file or tuple(canonical_name.object_path) not in (
+        ("UInt",),
+        ("Int",),
+        ("Bcd",),
+    ):
+        # A user-defined `external` with `[is_integer: true]`: nothing is known
+        # about its range (see the TODO above), so nothing is claimed; a use that
+        # needs a range gets the ordinary "must not be unbounded" error.
+        expression.type.integer.minimum_value = "-infinity"
+        expression.type.integer.maximum_value = "infinity"
+        return
     if type_size is None or type_size < 1 or type_size > 4096:
         # If the type_size is unknown (or is not a possible size), then we can't
         # actually say anything about the minimum and maximum values of the type.
